@@ -179,6 +179,21 @@ def fresh_int(name, lo=None, hi=None):
     return v
 
 
+def fresh_bits(name, width):
+    c = _c()
+    if name in c.inputs:
+        return int(c.inputs[name])
+    if c.rng is not None:
+        r = c.rng.random()
+        if r < 0.2:
+            v = c.rng.choice([0, 1, (1 << width) - 1, 1 << (width - 1)])
+        else:
+            v = c.rng.getrandbits(width)
+        c.drawn[name] = v
+        return v
+    raise MissingInput(name)
+
+
 def fresh_bool(name):
     c = _c()
     if name in c.inputs:
